@@ -524,7 +524,7 @@ def check_get_file(sink, world):
             for h in t.handlers:
                 names = _exc_names(h.type)
                 to_fnp = _raises_class(h.body, "FileNotPresent")
-                if "KeyError" in names and to_fnp:
+                if to_fnp and any(n in ("KeyError", "LookupError", "Exception", "BaseException", "<bare>") for n in names):
                     mapped = True
                 broader = [n for n in names if n != "KeyError"]
                 if broader and to_fnp:
@@ -652,8 +652,20 @@ def run(ctx):
 # ---------------------------------------------------------------------------
 # thorough tier: in-memory mutation adequacy
 # ---------------------------------------------------------------------------
+def _clone(nodes):
+    """deep copy of the function nodes that does not follow the `_parent` link out of each function"""
+    out = {}
+    for k, v in nodes.items():
+        if k == "__init__":
+            out[k] = v  # never mutated
+            continue
+        par = getattr(v, "_parent", None)
+        out[k] = copy.deepcopy(v, {id(par): par}) if par is not None else copy.deepcopy(v)
+    return out
+
+
 def _mutate_const(nodes, fname, old, new):
-    t = copy.deepcopy(nodes)
+    t = _clone(nodes)
     hit = 0
     for n in ast.walk(t[fname]):
         if isinstance(n, ast.Constant) and n.value == old:
@@ -665,7 +677,8 @@ def _mutate_const(nodes, fname, old, new):
 def _mutants(nodes):
     out = []  # (label, nodes, breaking?)
     for fname in ("get_dex_names", "is_multidex"):
-        pats = [n.value for n in ast.walk(nodes[fname]) if isinstance(n, ast.Constant) and isinstance(n.value, str) and "classes" in n.value]
+        pats = [c.args[0].value for c in ast.walk(nodes[fname]) if isinstance(c, ast.Call) and (dotted(c.func) or "").startswith("re.")
+                and c.args and isinstance(c.args[0], ast.Constant) and isinstance(c.args[0].value, str)]
         for p in pats:
             for lab, q, brk in (
                 ("drop classes.dex (* -> +)", p.replace("*", "+").replace("+)?", "+)"), None),
@@ -685,77 +698,77 @@ def _mutants(nodes):
                 if t and p.replace("*", "+") != p:
                     out.append(("%s: * -> + loses classes.dex" % fname, t, True))
     # threshold
-    t = copy.deepcopy(nodes)
+    t = _clone(nodes)
     for n in ast.walk(t["is_multidex"]):
         if isinstance(n, ast.Compare) and isinstance(n.ops[0], ast.Gt):
             n.ops[0] = ast.GtE()
             out.append(("is_multidex: > -> >=", t, True))
             break
-    t = copy.deepcopy(nodes)
+    t = _clone(nodes)
     for n in ast.walk(t["is_multidex"]):
         if isinstance(n, ast.Compare) and isinstance(n.comparators[0], ast.Constant) and n.comparators[0].value == 1:
             n.comparators[0] = ast.Constant(0)
             out.append(("is_multidex: > 0", t, True))
             break
     # get_file
-    t = copy.deepcopy(nodes)
+    t = _clone(nodes)
     for n in ast.walk(t["get_file"]):
         if isinstance(n, ast.ExceptHandler) and n.type is not None:
             n.type = ast.Name("Exception", ast.Load())
             out.append(("get_file: except Exception", t, True))
             break
-    t = copy.deepcopy(nodes)
+    t = _clone(nodes)
     for n in ast.walk(t["get_file"]):
         if isinstance(n, ast.ExceptHandler):
             n.body = [ast.Return(ast.Constant(b""))]
             out.append(("get_file: handler returns b''", t, True))
             break
-    t = copy.deepcopy(nodes)
+    t = _clone(nodes)
     for n in ast.walk(t["get_file"]):
         if isinstance(n, ast.Try):
             t["get_file"].body = [s if s is not n else n.body[0] for s in t["get_file"].body]
             out.append(("get_file: try removed", t, True))
             break
-    t = copy.deepcopy(nodes)
+    t = _clone(nodes)
     for n in ast.walk(t["get_file"]):
         if isinstance(n, ast.Call) and dotted(n.func) == "self.zip.read":
             n.args = [ast.Call(ast.Attribute(n.args[0], "lower", ast.Load()), [], [])]
             out.append(("get_file: reads name.lower()", t, True))
             break
     # get_files
-    t = copy.deepcopy(nodes)
+    t = _clone(nodes)
     r = [n for n in ast.walk(t["get_files"]) if isinstance(n, ast.Return)][0]
     r.value = ast.parse("[n for n in self.zip.namelist() if re.match('[^/]*$', n)]", mode="eval").body
     out.append(("get_files: root-level only", t, True))
-    t = copy.deepcopy(nodes)
+    t = _clone(nodes)
     r = [n for n in ast.walk(t["get_files"]) if isinstance(n, ast.Return)][0]
     r.value = ast.parse("self.zip.namelist()[1:]", mode="eval").body
     out.append(("get_files: drops first entry", t, True))
-    t = copy.deepcopy(nodes)
+    t = _clone(nodes)
     r = [n for n in ast.walk(t["get_files"]) if isinstance(n, ast.Return)][0]
     r.value = ast.parse("list(self.zip.namelist())", mode="eval").body
     out.append(("get_files: list() copy", t, False))
     # get_all_dex
-    t = copy.deepcopy(nodes)
+    t = _clone(nodes)
     for n in ast.walk(t["get_all_dex"]):
         if isinstance(n, ast.For):
             n.iter = ast.parse("self.get_files()", mode="eval").body
             out.append(("get_all_dex: iterates every file", t, True))
             break
-    t = copy.deepcopy(nodes)
+    t = _clone(nodes)
     for n in ast.walk(t["get_all_dex"]):
         if isinstance(n, ast.Yield):
             n.value = ast.parse("self.get_file('classes.dex')", mode="eval").body
             out.append(("get_all_dex: always classes.dex", t, True))
             break
-    t = copy.deepcopy(nodes)
+    t = _clone(nodes)
     for n in ast.walk(t["get_all_dex"]):
         if isinstance(n, ast.For):
             n.iter = ast.parse("list(self.get_dex_names())", mode="eval").body
             out.append(("get_all_dex: list(get_dex_names())", t, False))
             break
     # is_multidex via get_dex_names (benign w.r.t. today's findings? it changes nothing new)
-    t = copy.deepcopy(nodes)
+    t = _clone(nodes)
     r = [n for n in ast.walk(t["is_multidex"]) if isinstance(n, ast.Return)][0]
     r.value = ast.parse("len(list(self.get_dex_names())) >= 2", mode="eval").body
     out.append(("is_multidex: len(list(get_dex_names())) >= 2", t, False))
